@@ -123,8 +123,8 @@ pub fn prop_info(prop: &str) -> PropInfo {
         },
         "C20" => PropInfo {
             engine: "resolver-sim",
-            quick: 24_000,
-            thorough: 300_000,
+            quick: 80_000,
+            thorough: 600_000,
             rule: "one world = one tape: program, static ledger, a history of 0..4 resolutions on one compiler instance with tape-chosen endings (success, error, store error at call k, cancel after poll k, compiler failure at round r), then the target on that instance and on a fresh one, both on fresh threads with the same hash seed. In a quarter of the worlds with a history the ending of the last element is swept exhaustively over all its store calls, await points and rounds. evaluations = (history, target) pairs compared; non-trivial = history not empty and target has all its arguments; distinct = distinct digests of the per-arm outcome log",
             real: REAL_RESOLVER.to_vec(),
             stubbed: STUB_RESOLVER.to_vec(),
